@@ -293,56 +293,61 @@ def isPassword : Secret → Bool
   | .password _ => true
   | .userdigest _ => false
 
-/-- "Initial parameters checks": the client's algorithm -/
-def stageAlgo (call : Call) (d : DAuth) : Except Res Algo :=
-  if d.algo3 = algoInvalid then .error .wrongAlgo                       -- fix F25
-  else if d.algo3 ≠ (d.algo3 &&& call.malgo3) then .error .wrongAlgo
-  else if (d.algo3 &&& algoSession) ≠ 0 then .error .wrongAlgo
+/-- "Initial parameters checks": the client's algorithm (`params->algo3`) -/
+def stageAlgoN (call : Call) (algo3 : Nat) : Except Res Algo :=
+  if algo3 = algoInvalid then .error .wrongAlgo                       -- fix F25
+  else if algo3 ≠ (algo3 &&& call.malgo3) then .error .wrongAlgo
+  else if (algo3 &&& algoSession) ≠ 0 then .error .wrongAlgo
   else
-    match baseAlgo d.algo3 with
+    match baseAlgo algo3 with
     | none => .error .panic
     | some a => .ok a
 
-/-- … and the client's qop -/
-def stageQop (call : Call) (d : DAuth) : Except Res Unit :=
-  if d.qop = qopInvalid then .error .wrongQop                          -- fix F26
-  else if d.qop ≠ (d.qop &&& call.mqop) then .error .wrongQop
-  else if (d.qop &&& qopAuthInt) ≠ 0 then .error .wrongQop
+def stageAlgo (call : Call) (d : DAuth) : Except Res Algo := stageAlgoN call d.algo3
+
+/-- … and the client's qop (`params->qop`) -/
+def stageQopN (call : Call) (qop : Nat) : Except Res Unit :=
+  if qop = qopInvalid then .error .wrongQop                          -- fix F26
+  else if qop ≠ (qop &&& call.mqop) then .error .wrongQop
+  else if (qop &&& qopAuthInt) ≠ 0 then .error .wrongQop
   else .ok ()
 
-def len? (o : Option Param) : Option Nat := o.map fun p => p.raw.length
+def stageQop (call : Call) (d : DAuth) : Except Res Unit := stageQopN call d.qop
+
+/-- what the presence checks look at: `value.str != NULL` and `value.len` of parameter `k` -/
+abbrev LenView := Nat → Option Nat
+
+def lenView (d : DAuth) : LenView := fun k => (d.slots k).map fun p => p.raw.length
 
 /-- "A quick check for presence of all required parameters": user name -/
-def presUsername (ds : Nat) (d : DAuth) : Except Res Unit :=
-  let un := len? (d.slots kUsername)
-  let ue := len? (d.slots kUsernameExt)
-  match un, ue with
+def presUsername (ds : Nat) (lv : LenView) (uh : Bool) : Except Res Unit :=
+  match lv kUsername, lv kUsernameExt with
   | none, none => .error .wrongUsername
   | some _, some _ => .error .wrongUsername
   | none, some el =>
     if extMinLen > el then .error .wrongUsername
-    else if d.userhash then .error .wrongUsername
+    else if uh then .error .wrongUsername
     else .ok ()
   | some ul, none =>
-    if d.userhash ∧ ds * 2 > ul then .error .wrongUsername
-    else if d.userhash ∧ ds * 4 < ul then .error .wrongUsername
+    if uh ∧ ds * 2 > ul then .error .wrongUsername
+    else if uh ∧ ds * 4 < ul then .error .wrongUsername
     else .ok ()
 
-def presRealm (call : Call) (d : DAuth) : Except Res Unit :=
-  match len? (d.slots kRealm) with
+def presRealm (call : Call) (lv : LenView) (uh : Bool) : Except Res Unit :=
+  match lv kRealm with
   | none => .error .wrongRealm
   | some l =>
-    if (isPassword call.secret ∨ d.userhash) ∧ maxParam < l then .error .tooLarge else .ok ()
+    if (isPassword call.secret ∨ uh) ∧ maxParam < l then .error .tooLarge else .ok ()
 
-def presNcCnonce (d : DAuth) : Except Res Unit :=
-  if d.qop ≠ qopNone then
-    match len? (d.slots kNc) with
+def presNcCnonce (lv : LenView) (qop : Nat) : Except Res Unit :=
+  if qop ≠ qopNone then
+    match lv kNc with
     | none => .error .wrongHeader
     | some l =>
       if l = 0 then .error .wrongHeader
       else if ncMaxRaw < l then .error .wrongHeader
       else
-        match len? (d.slots kCnonce) with
+        match lv kCnonce with
         | none => .error .wrongHeader
         | some c =>
           if c = 0 then .error .wrongHeader
@@ -350,28 +355,31 @@ def presNcCnonce (d : DAuth) : Except Res Unit :=
           else .ok ()
   else .ok ()
 
-def presUri (d : DAuth) : Except Res Unit :=
-  match len? (d.slots kUri) with
+def presUri (lv : LenView) : Except Res Unit :=
+  match lv kUri with
   | none => .error .wrongUri
   | some l => if l = 0 then .error .wrongUri else if maxParam < l then .error .tooLarge else .ok ()
 
-def presNonce (a : Algo) (d : DAuth) : Except Res Unit :=
-  match len? (d.slots kNonce) with
+def presNonce (a : Algo) (lv : LenView) : Except Res Unit :=
+  match lv kNonce with
   | none => .error .nonceWrong
   | some l => if l = 0 then .error .nonceWrong else if a.stdLen * 2 < l then .error .nonceWrong else .ok ()
 
-def presResponse (ds : Nat) (d : DAuth) : Except Res Unit :=
-  match len? (d.slots kResponse) with
+def presResponse (ds : Nat) (lv : LenView) : Except Res Unit :=
+  match lv kResponse with
   | none => .error .responseWrong
   | some l => if l = 0 then .error .responseWrong else if ds * 4 < l then .error .responseWrong else .ok ()
 
-def stagePresence (a : Algo) (call : Call) (d : DAuth) : Except Res Unit := do
-  presUsername a.size d
-  presRealm call d
-  presNcCnonce d
-  presUri d
-  presNonce a d
-  presResponse a.size d
+def presenceV (a : Algo) (call : Call) (lv : LenView) (qop : Nat) (uh : Bool) : Except Res Unit := do
+  presUsername a.size lv uh
+  presRealm call lv uh
+  presNcCnonce lv qop
+  presUri lv
+  presNonce a lv
+  presResponse a.size lv
+
+def stagePresence (a : Algo) (call : Call) (d : DAuth) : Except Res Unit :=
+  presenceV a call (lenView d) d.qop d.userhash
 
 /-- "Check 'realm'" -/
 def stageRealm (call : Call) (d : DAuth) : Except Res Unit := do
